@@ -483,11 +483,25 @@ func (lr *lifeRun) act(a string) string {
 			return st
 		}
 		return "down"
-	case "half": // a partial request, then the client goes away
+	case "half", "halfcr", "halfbulk": // a partial request, then the client goes away
 		if cl := lr.clients[f[1]]; cl != nil {
-			cl.conn.Write([]byte("*2\r\n$3\r\nGET\r\n$1"))
+			part := "*2\r\n$3\r\nGET\r\n$1"
+			switch f[0] {
+			case "halfcr": // cut between the CR and the LF of a header line
+				part = []string{"*2\r", "*2\r\n$3\r", "*2\r\n$3\r\nGET\r\n$1\r"}[len(f[1])%3]
+			case "halfbulk": // cut inside the payload of a bulk string
+				part = "*2\r\n$4\r\nECHO\r\n$10\r\nabc"
+			}
+			cl.conn.Write([]byte(part))
 			cl.conn.Close()
 			delete(lr.clients, f[1])
+		}
+		return "ok"
+	case "stallreq": // the client sends part of a request and stays connected (the id's length selects the part)
+		if cl := lr.clients[f[1]]; cl != nil {
+			part := []string{"*2\r\n$4\r\nECHO\r\n$10\r\nabc", "*2\r\n$3", "*2\r"}[len(f[1])%3]
+			cl.conn.Write([]byte(part))
+			time.Sleep(5 * time.Millisecond)
 		}
 		return "ok"
 	case "alive":
